@@ -54,6 +54,10 @@ func ReadFrom(r io.Reader) (*Index, error) {
 	if int32(idx.depth) < 0 {
 		return nil, errors.New("csi: invalid index depth value")
 	}
+	if uint64(idx.minShift)+uint64(idx.depth)*nextBinShift > 62 {
+		// Coordinates are int64 and bin numbers uint32.
+		return nil, errors.New("csi: index geometry out of range")
+	}
 	var n int32
 	err = binary.Read(r, binary.LittleEndian, &n)
 	if err != nil {
